@@ -107,7 +107,7 @@ func TestC20(t *testing.T) {
 		}
 		return
 	}
-	nRecv, nLock, nSend, nDur, nRej := r.Pick(70, 980), r.Pick(25, 350), r.Pick(12, 140), r.Pick(13, 130), r.Pick(30, 400)
+	nRecv, nLock, nSend, nDur, nRej := r.Pick(190, 15000), r.Pick(70, 5400), r.Pick(30, 1800), r.Pick(30, 1800), r.Pick(80, 6000)
 	off := rnd.Intn(28)
 	for i := 0; i < nRecv; i++ {
 		sp := c20Spec{Kind: "recv", Proto: recvProtos[(i+off)%7], Fmt: formats[((i+off)/7)%4], Tr: trs[rnd.Intn(2)],
@@ -136,6 +136,9 @@ func TestC20(t *testing.T) {
 		}
 		if sp.Proto == "req" {
 			sp.Bind = rnd.Intn(3) == 0
+			if rnd.Intn(4) == 0 {
+				sp.IForm, sp.N = onceForm, 1 // no interval, no count: one request, first reply printed, exit
+			}
 		}
 		sp.Lens, sp.Cls = lens(sp.N)
 		add(sp)
@@ -179,6 +182,17 @@ func TestC20(t *testing.T) {
 		add(sp)
 	}
 	r.Run(cases, func(c *mon.Case) {
+		defer func() {
+			if x := recover(); x != nil {
+				e, ok := x.(envFailure)
+				if !ok {
+					panic(x)
+				}
+				c.Count("harness_environment_failures", 1)
+				c.Inconclusive("harness environment: %s", e.msg)
+			}
+		}()
+		_ = os.MkdirAll(hx.ScratchDir(), 0o700) // (re)create it should someone have swept the temp directory
 		sp := c.Spec.(c20Spec)
 		switch sp.Kind {
 		case "recv":
@@ -248,6 +262,24 @@ func mkBody(r *rand.Rand, n, cls int, argv bool) []byte {
 		}
 	}
 	return b
+}
+
+// sweeps counts the bodies that contain every byte value.
+func sweeps(bodies [][]byte) (n int) {
+	for _, b := range bodies {
+		var seen [256]bool
+		k := 0
+		for _, x := range b {
+			if !seen[x] {
+				seen[x] = true
+				k++
+			}
+		}
+		if k == 256 {
+			n++
+		}
+	}
+	return
 }
 
 func mkBodies(r *rand.Rand, lens, cls []int, avoid []byte) [][]byte {
@@ -350,7 +382,7 @@ func dataArgs(c *mon.Case, n, cls, form int) (args []string, data []byte, name s
 	data = mkBody(c.Rand, n, cls, false)
 	path := filepath.Join(hx.ScratchDir(), hx.Uniq("f"))
 	if err := os.WriteFile(path, data, 0o644); err != nil {
-		panic(err)
+		envFail("%v", err)
 	}
 	c.Cleanup(func() { os.Remove(path) })
 	switch form {
@@ -373,6 +405,7 @@ func capArg(n int) int {
 }
 
 const nZeroForms = 6
+const onceForm = 99 // lock/req: neither an interval nor a count
 
 func zeroInterval(form int) []string {
 	switch form {
@@ -450,6 +483,7 @@ func printedVerdict(c *mon.Case, p *mproc, f string, want [][]byte, complete boo
 	}
 	if complete && v.Compared > 0 {
 		c.Count("runs_printed_"+f, 1)
+		c.Count("printed_bodies_with_all_256_byte_values_"+f, sweeps(want))
 		c.Nontrivial()
 	}
 }
@@ -595,6 +629,9 @@ func runLock(c *mon.Case, sp c20Spec) {
 	count := []string{"--count", fmt.Sprint(sp.N)}
 	if sp.IForm%2 == 1 {
 		count = []string{fmt.Sprintf("--count=%d", sp.N)}
+	}
+	if sp.IForm == onceForm {
+		count = nil
 	}
 	groups := [][]string{{"--" + sp.Proto}, addrArgs(pe, sp.Bind, sp.AForm), da, zeroInterval(sp.IForm), count, fmtArgs(sp.Fmt, sp.FForm)}
 	p := startMacat(c, shuffled(c.Rand, groups))
